@@ -88,6 +88,16 @@ RAW_FILES.append(('longline.py', b'x = "' + b'a' * 200000 + b'"\n'))
 RAW_FILES.append(('bigint.py', b'X = 0x' + b'F' * 5000 + b'\ndef f(a=0b' + b'1' * 20000 + b', b=-0o' + b'7' * 6000 + b'): pass\nZ = [0x' + b'1' * 4000 + b', 1]\n'))
 RAW_FILES.append(('bigdec.py', b'Y = ' + b'9' * 5000 + b'\n'))   # refused by the parser itself
 RAW_FILES.append(('deepann.py', b'x: "' + b'-' * 3000 + b'1" = 1\ndef f(a: "' + b'(' * 300 + b'int' + b')' * 300 + b'", b: "' + b'[' * 400 + b']' * 400 + b'"): pass\nclass C("' + b'~' * 3000 + b'B"): pass\n'))
+# syntax of recent Python versions (accepted by the running interpreter or not: either way the run goes on): type statements and
+# type parameters at module, class and function level, named like other things, match statements, exception groups
+RAW_FILES.append(('pep695.py', b'type Vector = list[float]\n"""doc of the alias"""\ntype Pair[T] = tuple[T, T]\nclass Box[T]:\n    """box"""\n    type Inner = list[T]\n    """inner"""\n'
+                  b'    def get[U](self, x: U) -> T:\n        """get"""\n        type Local = dict[str, U]\n        return x\n    type get = int\n'
+                  b'def first[T: (int, str), *Ts, **P](x: T) -> T:\n    type InFunc = list[T]\n    return x\nasync def later[T](x: T) -> T:\n    type InAsync = T\n    return x\n'
+                  b'if True:\n    type Guarded = int\ntry:\n    type Tried = int\nexcept Exception:\n    type Handled = str\n'))
+RAW_FILES.append(('pep695odd.py', b'type __all__ = int\ntype __docformat__ = str\nclass Base:\n    def m(self): pass\nclass Sub(Base):\n    type m = int\n    type __init__ = None\n'
+                  b'def f():\n    class L:\n        type T = int\n    type f = int\nlambda: 0\n'))
+RAW_FILES.append(('newsyntax.py', b'def f(cmd, /, x, *, y):\n    match cmd:\n        case [a, *rest] if a:\n            def inner(): pass\n        case {"k": v, **kw}:\n            class K: pass\n        case _:\n            z = 1\n'
+                  b'try:\n    pass\nexcept* ValueError as eg:\n    H = 1\nif (n := 10) > 5:\n    W = n\nwith (open("a") as fa, open("b") as fb):\n    V = 2\n'))
 
 PRIVACY_PATTERNS = ['**', '**.*', '*', 'pkg.**', '**.ghost', '**.C', '**.Base', '**.f', '**.m', '**.x', '**._p', '**.D.*', 'pkg.dep', 'pkg.mod', 'pkg.sub', 'pkg.sub.**', 'pkg.mod.*', 'pkg.dep.Base', 'pkg.dep.Base.m',
                     'dep', 'dep.Base', 'mod.C', 'pkg', '**.I', '**.__init__', '**.E', '*.mod.C.f', '**.UPPER', 'pkg.sib', '**.g', '**.[CD]', 'pkg.*.?']
